@@ -257,12 +257,17 @@ fn build_intents(sp: &Spec) -> Intents {
     m
 }
 
-struct Obs { toks: Vec<Tok>, garbage: u64, res: Vec<(u32, u32, &'static str)>, eof: bool, raw: Option<Vec<u8>>, diag: Vec<String> }
+struct Obs { toks: Vec<Tok>, garbage: u64, res: Vec<(u32, u32, &'static str)>, eof: bool, raw: Option<Vec<u8>>, diag: Vec<String>,
+             /// servers: what the wire held when the server had gone idle, before any further request was sent
+             idle: Option<&'static str>,
+             /// calls whose request was written whole and that only ended by their own 20 s timeout
+             hung: Vec<(u32, u32)> }
 impl Obs {
     fn render(&self) -> String {
         let res = if self.res.is_empty() { "-".to_string() } else { self.res.iter().map(|(t, i, s)| format!("{t:x}:{i:x}:{s}")).collect::<Vec<_>>().join(",") };
-        format!("wire={} garbage={} res={} eof={} raw={} diag={}", toks_str(&self.toks), hx(self.garbage), res, self.eof as u8,
-            self.raw.as_ref().map(|r| hex(r)).unwrap_or_else(|| "-".into()), if self.diag.is_empty() { "-".to_string() } else { clean(self.diag.join(";")) })
+        format!("wire={} garbage={} res={} eof={} raw={} diag={}{}", toks_str(&self.toks), hx(self.garbage), res, self.eof as u8,
+            self.raw.as_ref().map(|r| hex(r)).unwrap_or_else(|| "-".into()), if self.diag.is_empty() { "-".to_string() } else { clean(self.diag.join(";")) },
+            self.idle.map(|i| format!(" idle={i}")).unwrap_or_default()) + &(if self.hung.is_empty() { String::new() } else { format!(" hung={}", self.hung.iter().map(|(t, i)| format!("{t:x}:{i:x}")).collect::<Vec<_>>().join(",")) })
     }
 }
 
@@ -424,8 +429,17 @@ fn status_of(r: &Result<(), RepeError>, is_call: bool) -> (&'static str, String)
 fn finish_stream(sp: &Spec, intents: &Intents, data: &[u8], res: Vec<(u32, u32, &'static str)>, eof: bool, diag: Vec<String>) -> Obs {
     let (mut toks, mut garbage, mut used) = (vec![], 0u64, HashSet::new());
     analyse(data, intents, &mut used, &mut toks, &mut garbage);
-    let _ = sp;
-    Obs { toks, garbage, res, eof, raw: if data.len() <= RAW_MAX && !data.is_empty() { Some(data.to_vec()) } else { None }, diag }
+    // `res` is about the frame WRITE.  A call (kind 'c') can also fail after its request went out
+    // whole (the connection was failed while it waited for the response): that is a successful
+    // write; if it only ended by its own timeout it is reported separately as hung.
+    let whole: HashSet<(u32, u32)> = toks.iter().filter(|t| t.whole).map(|t| (t.tag, t.seq)).collect();
+    let is_call = |t: u32| (t as usize) < sp.kinds.len() && sp.kinds[t as usize] == 'c';
+    let mut hung = vec![];
+    let res: Vec<(u32, u32, &'static str)> = res.into_iter().map(|(t, i, st)| {
+        if st == "hang" { if whole.contains(&(t, i)) { hung.push((t, i)); } }
+        if is_call(t) && (st == "err" || st == "hang") && whole.contains(&(t, i)) { (t, i, "ok") } else if st == "hang" { (t, i, "err") } else { (t, i, st) }
+    }).collect();
+    Obs { toks, garbage, res, eof, raw: if data.len() <= RAW_MAX && !data.is_empty() { Some(data.to_vec()) } else { None }, diag, idle: None, hung }
 }
 
 // ------------------------------------------------------------------ blocking client
@@ -525,8 +539,13 @@ fn run_aclient(sp: &Spec) -> Result<Obs, String> {
                             Err(_) => out.push((t as u32, i as u32, "abort", "elapsed".to_string())),
                         }
                     } else {
+                        let t0 = Instant::now();
                         let r = fut.await;
-                        let (st, d) = status_of(&r, kind == 'c'); out.push((t as u32, i as u32, st, d));
+                        let (st, d) = status_of(&r, kind == 'c');
+                        // a call that only ends by its own 20 s timeout was left hanging on a connection
+                        // that had been failed long before (every peer stall in these cases is under 2 s)
+                        let st = if kind == 'c' && r.is_err() && t0.elapsed() > Duration::from_secs(10) { "hang" } else { st };
+                        out.push((t as u32, i as u32, st, d));
                     }
                 }
                 out
@@ -590,7 +609,7 @@ fn finish_ws(intents: &Intents, msgs: &[Vec<u8>], res: Vec<(u32, u32, &'static s
     let (toks, garbage) = analyse_ws(msgs, intents);
     let total: usize = msgs.iter().map(|m| m.len()).sum();
     let raw = if total <= RAW_MAX && total > 0 { Some(msgs.concat()) } else { None };
-    Obs { toks, garbage, res, eof, raw, diag }
+    Obs { toks, garbage, res, eof, raw, diag, idle: None, hung: vec![] }
 }
 
 /// raw WebSocket peer loop over any tungstenite stream: stall, then collect
@@ -669,8 +688,13 @@ fn run_wsclient(sp: &Spec) -> Result<Obs, String> {
                             Err(_) => out.push((t as u32, i as u32, "abort", "elapsed".to_string())),
                         }
                     } else {
+                        let t0 = Instant::now();
                         let r = fut.await;
-                        let (st, d) = status_of(&r, kind == 'c'); out.push((t as u32, i as u32, st, d));
+                        let (st, d) = status_of(&r, kind == 'c');
+                        // a call that only ends by its own 20 s timeout was left hanging on a connection
+                        // that had been failed long before (every peer stall in these cases is under 2 s)
+                        let st = if kind == 'c' && r.is_err() && t0.elapsed() > Duration::from_secs(10) { "hang" } else { st };
+                        out.push((t as u32, i as u32, st, d));
                     }
                 }
                 out
@@ -823,6 +847,7 @@ fn run_tcp_server(sp: &Spec) -> Result<Obs, String> {
     wait_drained(&ctl, expected_total(sp, &intents, false));
     // probes: two more requests once everything else has been answered (or the stream ended)
     let before = ctl.received.load(Ordering::SeqCst);
+    let eof_before = ctl.eof.load(Ordering::SeqCst);
     for p in 0..2u32 {
         if let Err(e) = s.write_all(&request('r', sp.nw as u32 + p, 0, PROBE_BLEN)) { diag.push(format!("probe{p}:{:?}", e.kind())); }
     }
@@ -836,6 +861,13 @@ fn run_tcp_server(sp: &Spec) -> Result<Obs, String> {
     let mut ord: Vec<(u32, u32)> = order.iter().map(|(t, i)| (*t as u32, *i as u32)).collect();
     ord.push((sp.nw as u32, 0)); ord.push((sp.nw as u32 + 1, 0));
     let mut obs = finish_stream(sp, &intents, &data, vec![], eof, diag);
+    // with nothing more to answer and the connection still open, the wire must not end inside a frame
+    // (a response whose tail is only pushed out by a later request was not put on the connection whole)
+    obs.idle = Some(if eof_before { "closed" } else {
+        let (mut t, mut g, mut u) = (vec![], 0u64, HashSet::new());
+        analyse(&data[..(before as usize).min(data.len())], &intents, &mut u, &mut t, &mut g);
+        if t.last().map(|x| !x.whole).unwrap_or(false) { "torn" } else { "whole" }
+    });
     obs.res = response_results(&ord, &obs.toks, eof);
     obs.res.sort();
     Ok(obs)
@@ -1065,6 +1097,16 @@ fn gen_cases(seed: u64, thorough: bool) -> Vec<String> {
             let totals: Vec<Vec<usize>> = vec![(0..520).map(|_| match rng.below(4) { 0 => 8192, 1 => 8191, _ => 7800 + rng.below(392) as usize }).collect()];
             out.push(case_line(0, "client", "stall", &totals, &kinds, 150, 4096, 1200, None, 0, 0, rng.next() & 0xffff_ffff));
         }
+        // (1b) servers: the last response of the pipeline has a frame of 8192..8240 bytes (at least the
+        // write buffer) with a body just below it
+        for ep in ["server", "aserver"] {
+            for last in [8192usize, 8193, 8200, 8239] {
+                let kinds = vec!['r', 'r'];
+                let totals: Vec<Vec<usize>> = vec![vec![48 + 16 + rng.below(900) as usize], vec![last]];
+                // vdelay 0xff with victim 1: writer 1's response is the last of the pipeline
+                out.push(case_line(0, ep, "conc", &totals, &kinds, 0, 0, 0, Some(1), 0, 0xff, rng.next() & 0xffff_ffff));
+            }
+        }
         // (2b) WebSocket server, stalled peer, a backlog of hundreds of queued pushes: when the
         // peer resumes, every binary message must still be exactly one frame
         {
@@ -1086,11 +1128,13 @@ fn gen_cases(seed: u64, thorough: bool) -> Vec<String> {
             for j in 0..6 {
                 let nw = rng.range(2, 4) as usize;
                 let mut kinds = kinds_for(&mut rng, ep, nw);
-                for (t, k) in kinds.iter_mut().enumerate() { if t > 0 { *k = 'n'; } }
+                // writer 1 is sometimes a call: written (and unanswered: the peer is stalled) before the
+                // victim starts, so it is in flight when the victim's frame write is abandoned
+                for (t, k) in kinds.iter_mut().enumerate() { if t > 0 { *k = if t == 1 && j >= 3 { 'c' } else { 'n' }; } }
                 let vsize = if thorough { *rng.pick(&[8 * MIB, 16 * MIB]) } else { 8 * MIB } + rng.below(5000) as usize;
                 let totals: Vec<Vec<usize>> = (0..nw).map(|t| if t == 0 { vec![vsize] } else { (0..rng.range(1, 2)).map(|_| 48 + 16 + rng.below(1500) as usize).collect() }).collect();
                 let abort = match j { 0 => 0, 1 => 300, 2 => 2_000, 3 => 20_000, 4 => 80_000, _ => rng.below(200_000) };
-                out.push(case_line(0, ep, "cancel", &totals, &kinds, 0, 4096, 700, Some(0), abort, rng.below(4), rng.next() & 0xffff_ffff));
+                out.push(case_line(0, ep, "cancel", &totals, &kinds, 0, 4096, 700, Some(0), abort, if j >= 3 { 5 + rng.below(4) } else { rng.below(4) }, rng.next() & 0xffff_ffff));
             }
             // (3') the same, with the other writers already queued behind the victim
             for j in 0..3 {
